@@ -220,67 +220,68 @@ def apduCmdEnc (c : Cmd) : List UInt8 :=
     else [0, oct (c.rdf_len / 256), oct c.rdf_len]
   hdr ++ lc ++ le
 
-/-- apduCmdDec(cmd, apdu, count) (after fix-3) = (cmd, sizeof(apdu_cmd_t) + cdf_len - 24 = cdf_len) -/
+/-- the Lc part of apduCmdDec: (cdf_len_len, cdf_len) from the octets `[count]apdu` after the header -/
+def apduLc (a : List UInt8) : R (Nat × Nat) :=
+  let count := a.length
+  if count = 0 ∨ count = 1 then .ok (0, 0) else
+  match rd a 0 with
+  | .ok a0 =>
+    if count = 3 ∧ a0 = 0 then .ok (0, 0)
+    else if a0 ≠ 0 then .ok (1, a0)
+    else if count < 3 then .err
+    else
+      match rd a 1, rd a 2 with
+      | .ok a1, .ok a2 =>
+        let cdf_len := a1 * 256 + a2
+        if cdf_len = 0 then .err else .ok (3, cdf_len)
+      | .oob, _ => .oob
+      | _, .oob => .oob
+      | _, _ => .err
+  | .err => .err
+  | .oob => .oob
+
+/-- the `switch (count)` of apduCmdDec on the octets left after cdf (after fix-3) -/
+def apduLe (a : List UInt8) (cdf_len_len cdf_len : Nat) : R Nat :=
+  let count := a.length
+  if count = 0 then
+    if cdf_len_len = 3 ∧ cdf_len < 256 then .err else .ok 0
+  else if count = 1 then
+    match rd a 0 with
+    | .ok b => if cdf_len_len = 3 then .err else .ok (if b = 0 then 256 else b)
+    | .err => .err
+    | .oob => .oob
+  else if count = 2 then
+    match rd a 0, rd a 1 with
+    | .ok b0, .ok b1 =>
+      let r := if b0 * 256 + b1 = 0 then 65536 else b0 * 256 + b1
+      if cdf_len_len ≤ 1 ∨ (cdf_len < 256 ∧ r ≤ 256) then .err else .ok r
+    | .oob, _ => .oob
+    | _, .oob => .oob
+    | _, _ => .err
+  else if count = 3 then
+    match rd a 0, rd a 1, rd a 2 with
+    | .ok b0, .ok b1, .ok b2 =>
+      let r := if b1 * 256 + b2 = 0 then 65536 else b1 * 256 + b2
+      if b0 ≠ 0 ∨ cdf_len_len ≠ 0 ∨ r ≤ 256 then .err else .ok r
+    | .oob, _, _ => .oob
+    | _, .oob, _ => .oob
+    | _, _, .oob => .oob
+    | _, _, _ => .err
+  else .err
+
+/-- apduCmdDec(cmd, apdu, count) (after fix-3); `apdu += k, count -= k` is `drop k` -/
 def apduCmdDec (apdu : List UInt8) : R Cmd :=
   if apdu.length < 4 then .err else
   match rd apdu 0, rd apdu 1, rd apdu 2, rd apdu 3 with
   | .ok cla, .ok ins, .ok p1, .ok p2 =>
     let a := apdu.drop 4
-    let count := a.length
-    -- (cdf_len_len, cdf_len)
-    let lc : R (Nat × Nat) :=
-      if count = 0 ∨ count = 1 then .ok (0, 0) else
-      match rd a 0 with
-      | .ok a0 =>
-        if count = 3 ∧ a0 = 0 then .ok (0, 0)
-        else if a0 ≠ 0 then .ok (1, a0)
-        else if count < 3 then .err
-        else
-          match rd a 1, rd a 2 with
-          | .ok a1, .ok a2 =>
-            let cdf_len := a1 * 256 + a2
-            if cdf_len = 0 then .err else .ok (3, cdf_len)
-          | .oob, _ => .oob
-          | _, .oob => .oob
-          | _, _ => .err
-      | .err => .err
-      | .oob => .oob
-    match lc with
+    match apduLc a with
     | .ok (cdf_len_len, cdf_len) =>
       let a := a.drop cdf_len_len
-      let count := count - cdf_len_len
-      if cdf_len > count then .err else
+      if cdf_len > a.length then .err else
       match rdSlice a 0 cdf_len with
       | .ok cdf =>
-        let a := a.drop cdf_len
-        let count := count - cdf_len
-        let le : R Nat :=
-          if count = 0 then
-            if cdf_len_len = 3 ∧ cdf_len < 256 then .err else .ok 0
-          else if count = 1 then
-            match rd a 0 with
-            | .ok b => if cdf_len_len = 3 then .err else .ok (if b = 0 then 256 else b)
-            | .err => .err
-            | .oob => .oob
-          else if count = 2 then
-            match rd a 0, rd a 1 with
-            | .ok b0, .ok b1 =>
-              let r := if b0 * 256 + b1 = 0 then 65536 else b0 * 256 + b1
-              if cdf_len_len ≤ 1 ∨ (cdf_len < 256 ∧ r ≤ 256) then .err else .ok r
-            | .oob, _ => .oob
-            | _, .oob => .oob
-            | _, _ => .err
-          else if count = 3 then
-            match rd a 0, rd a 1, rd a 2 with
-            | .ok b0, .ok b1, .ok b2 =>
-              let r := if b1 * 256 + b2 = 0 then 65536 else b1 * 256 + b2
-              if b0 ≠ 0 ∨ cdf_len_len ≠ 0 ∨ r ≤ 256 then .err else .ok r
-            | .oob, _, _ => .oob
-            | _, .oob, _ => .oob
-            | _, _, .oob => .oob
-            | _, _, _ => .err
-          else .err
-        match le with
+        match apduLe (a.drop cdf_len) cdf_len_len cdf_len with
         | .ok rdf_len => .ok ⟨oct cla, oct ins, oct p1, oct p2, cdf, rdf_len⟩
         | .err => .err
         | .oob => .oob
